@@ -173,6 +173,13 @@ def _build_pool():
         pth = os.path.join(bu, fn)
         open(pth, 'wb').write(B.encode(cb))
         add(key, pth)
+    # a punch file that was moved away from its run directory: no tables next to it (nor in the working directory) - it
+    # cannot be opened, whatever was opened before
+    bn = os.path.join(d, 'bn')
+    os.makedirs(bn)
+    pth = os.path.join(bn, 'moved.bpch')
+    open(pth, 'wb').write(B.encode(cb))
+    add('bpchn_own', pth)
     # an ICARTT file whose column names contain characters other readers' options replace ('-', '.'); and the shipped
     # sample opened with substitutions asked for (history material only: format and keysubs named)
     txt = open(tc.self_described_paths['ffi1001']).read().replace('OH_pptv', 'OH-pptv').replace('HO2_pptv', 'HO2.pptv')
@@ -198,6 +205,12 @@ def _build_pool():
         pth = os.path.join(d, 'fficomma_%s%s' % (suffix, ext))
         open(pth, 'w').write('\n'.join(clines))
         add('fficomma_%s' % suffix, pth)
+    # ... and delimited by commas without a blank behind them ("36,1001")
+    tlines = [l.replace(', ', ',') for l in clines]
+    for suffix, ext in (('own', '.ffi1001'), ('noext', '')):
+        pth = os.path.join(d, 'ffitight_%s%s' % (suffix, ext))
+        open(pth, 'w').write('\n'.join(tlines))
+        add('ffitight_%s' % suffix, pth)
     # two boundary files of one grid and one species list with different numbers of time steps
     cbn = S.gen_bnd(r0)
     while len(cbn['tflag']) < 2:
@@ -331,7 +344,11 @@ def _register_user_reader():
                                                         isMine=classmethod(isMine), __init__=init))
 
 
-def _run_history(pool, classes, hist, probe, named):
+def _run_history(pool, classes, hist, probe, named, lowfd=None):
+    if lowfd:
+        # a process that may hold few files open at a time: what was opened and dropped must not count
+        import resource
+        resource.setrlimit(resource.RLIMIT_NOFILE, (lowfd, resource.getrlimit(resource.RLIMIT_NOFILE)[1]))
     import PseudoNetCDF as pnc
     from PseudoNetCDF import _getreader as g
     cid = {c: i for i, c in enumerate(classes)}
@@ -354,6 +371,9 @@ def _run_history(pool, classes, hist, probe, named):
         r = _open_one(pnc, pathlib.Path(pool[key]) if aspath else pool[key], cid, **kw)
         r['reg'] = [k for k, v in g._readers]
         steps.append(r)
+        if lowfd:
+            import gc
+            gc.collect()        # what is unreachable is released now, not when the collector next happens to run
     res = dict(steps=steps)
     if named:
         res['named'] = _open_one(pnc, pool[probe], cid, format=named)
@@ -380,6 +400,7 @@ def _fresh(pool, classes, key, withreg=False):
 
 
 NAMED = {'uamiv': 'uamiv', 'lateral_boundary': 'lateral_boundary', 'ffi1001': 'ffi1001', 'fficomma': 'ffi1001', 'ffidash': 'ffi1001',
+         'ffitight': 'ffi1001',
          'bndgen1': 'lateral_boundary', 'bndgen2': 'lateral_boundary',
          'humidity_own': 'humidity', 'vertical_diffusivity_own': 'vertical_diffusivity',
          'plain': 'netcdf', 'ioapi': 'ioapi'}
@@ -475,12 +496,17 @@ def gen(rng, tier):
                   ([['ffi1001_own', None]], 'fficomma_noext'), ([['fficomma_own', None]], 'ffi1001_noext'),
                   ([['ffi1001_noext', None], ['fficomma_own', 'ffi1001']], 'fficomma_own'),
                   ([['fficomma_noext', None], ['ffi1001_own', 'ffi1001']], 'ffi1001_own'),
+                  ([['bpchp_own', None]], 'bpchn_own'), ([['bpchu_own', None], ['bpchp_noext', 'bpch']], 'bpchn_own'),
+                  ([], 'ffitight_own'), ([['ffi1001_own', None]], 'ffitight_noext'), ([['ffitight_noext', 'ffi1001']], 'ffitight_own'),
                   ([['bndgen2_own', None]], 'bndgen1_noext'), ([['bndgen1_own', None]], 'bndgen2_own'),
                   ([['bndgen2_noext', 'lateral_boundary']], 'bndgen1_own')]:
         out.append(dict(hist=h, probe=pr))
     # the history that used to break: an .nc open before an extension-less netCDF probe
     out.append(dict(hist=[['plain_own', None]], probe='ioapi_noext'))
     out.append(dict(hist=[['plain_own', None], ['plain_own', None], ['uamiv_nc', None]], probe='plain_noext'))
+    # "how often": many opens in a process that may hold few files open at a time; every object is dropped after its open
+    many = [[k, None] for k in ('uamiv_own', 'lateral_boundary_own', 'humidity_own', 'bpchp_own') if k in P['files']] * 20
+    out.append(dict(hist=many, probe='humidity_own', lowfd=100))
     return out
 
 
@@ -493,7 +519,7 @@ def impl(case):
     pool = P['files']
     classes = P['base']['classes']
     named = _named_for(case['probe'])
-    res = _in_child(_run_history, pool, classes, case['hist'], case['probe'], named)
+    res = _in_child(_run_history, pool, classes, case['hist'], case['probe'], named, case.get('lowfd'))
     res['fresh'] = _in_child(_fresh, pool, classes, case['probe'], any(k == REG for k, _ in case['hist']))
     if named and any(k == case['probe'] and fmt == named for k, fmt in case['hist']):
         # the probe is also opened with its format named somewhere in the history: what a fresh process gives for that
@@ -566,6 +592,8 @@ def oracle(case, res):
     fresh = res['fresh']
     if ('err' in probe) != ('err' in fresh):
         return 'probe %s: %s after the history but %s in a fresh process' % (case['probe'], probe, fresh)
+    if 'err' in probe and 'named' in res and 'err' not in res['named']:
+        return 'probe %s opens with format=%s but auto-detection raises %s' % (case['probe'], _named_for(case['probe']), probe['err'])
     if 'err' not in probe:
         if probe['cls'] != fresh['cls']:
             P = _build_pool()
